@@ -25,6 +25,14 @@ var vxGoodKeys = []string{vxTestKeyB64, vxKey16, vxKey24, vxKey32b}
 func vxOpenHow(how int, key string) (*fsCache, error) {
 	base := vxBaseDir()
 	vxSetenv("FSCACHE_ENCRYPT_KEY", "")
+	if (how == 1 || how == 2) && key != "" {
+		// a key in the DSN is the configured key, whatever the environment holds
+		other := vxKey32b
+		if key == other {
+			other = vxTestKeyB64
+		}
+		vxSetenv("FSCACHE_ENCRYPT_KEY", other)
+	}
 	switch how {
 	case 0:
 		return vxOpen(WithBaseDir(base), WithEncryption(key))
@@ -182,6 +190,13 @@ func VxC17_AtRest() {
 	}
 	got, gerr := c.Get("k")
 	vxAssert(gerr == nil && vxBytesEq(got, v), "C17/get-after-set-differs")
+	// the key in use is the configured one: a store opened with that key reads the value
+	if cc, cerr := vxOpenHow(0, key); cerr == nil {
+		got2, gerr2 := cc.Get("k")
+		vxAssert(gerr2 == nil && vxBytesEq(got2, v), "C17/value-not-readable-with-the-configured-key")
+	} else {
+		vxAssert(false, "C17/open-with-usable-key-failed")
+	}
 	// the same value again: a new nonce, a different file
 	vxAssert(c.Set("k", v) == nil, "C17/set-failed")
 	f2 := vxRawRead(c, "k")
@@ -191,6 +206,20 @@ func VxC17_AtRest() {
 		vxAssert(len(vxRandLog) == 2 && len(vxSeals) == 2, "C17/nonce-not-drawn-per-write")
 	} else {
 		vxAssert(!bytes.Equal(f1, f2) && !bytes.Equal(f1[:12], f2[:12]), "C17/same-ciphertext-for-two-writes")
+	}
+	// and once more through a store opened again (a new process): still a fresh nonce
+	c3, err3 := vxOpenHow(how, key)
+	if err3 != nil {
+		vxAssert(false, "C17/open-with-usable-key-failed")
+		return
+	}
+	vxAssert(c3.Set("k", v) == nil, "C17/set-failed")
+	f3 := vxRawRead(c3, "k")
+	vxAssert(vxCiphertextOnly(f3, v, 2), "C17/file-is-not-ciphertext-only")
+	if vxIsSymbolic() {
+		vxAssert(len(vxRandLog) == 3 && len(vxSeals) == 3, "C17/nonce-not-drawn-per-write")
+	} else {
+		vxAssert(!bytes.Equal(f3, f1) && !bytes.Equal(f3, f2) && !bytes.Equal(f3[:12], f1[:12]) && !bytes.Equal(f3[:12], f2[:12]), "C17/same-ciphertext-for-two-writes")
 	}
 	vxCover("C17/at-rest")
 }
